@@ -34,6 +34,32 @@ Cmd(ev) == [op |-> ev.op, v |-> ev.v, f |-> ev.f, e |-> ev.e]
 LoggedEx(ev) == [ok |-> ~ev.err, s |-> JServed(ev.nodes[ev.n].served)]
 KindOf(op) == IF op \in {"hset", "hdel"} THEN "hash" ELSE IF op = "del" THEN "del" ELSE "reg"
 
+(* MSET = the SETs, DEL k1 k2 = the DELs (reply: how many existed), MGET / EXISTS / DBSIZE read what GET reads *)
+NIL == "<nil>"
+RECURSIVE MkFold(_, _, _, _)
+MkFold(script, i, st, acc) ==       \* acc: expected replies so far
+  IF i > Len(script) THEN [st |-> st, rs |-> acc]
+  ELSE LET c == script[i] IN
+       IF c.op = "del" THEN
+            LET n == Cardinality({j \in DOMAIN c.ks : st[c.ks[j]] # NIL /\ \A j2 \in DOMAIN c.ks : (j2 < j => c.ks[j2] # c.ks[j])}) IN
+            MkFold(script, i + 1, [k \in DOMAIN st |-> IF \E j \in DOMAIN c.ks : c.ks[j] = k THEN NIL ELSE st[k]], Append(acc, n))
+       ELSE MkFold(script, i + 1,
+                   [k \in DOMAIN st |-> LET J == {j \in DOMAIN c.ks : c.ks[j] = k} IN
+                                          IF J = {} THEN st[k] ELSE c.vs[CHOOSE j \in J : \A j2 \in J : j2 <= j]],
+                   Append(acc, "+OK"))
+MultiKeyVerdict(ev) ==
+  LET f == MkFold(ev.script, 1, [k \in 1..ev.nk |-> NIL], <<>>)
+      want == [k \in 1..ev.nk |-> f.st[k]]
+      cnt == Cardinality({k \in 1..ev.nk : f.st[k] # NIL}) IN
+  IF ev.replies # f.rs THEN "a multi-key command was not answered like the per-key commands it stands for"
+  ELSE IF \E n \in DOMAIN ev.views : ev.views[n].gets # want
+       THEN (IF ev.views[1].gets # want THEN "the node that accepted a multi-key write does not serve it key by key"
+             ELSE "a multi-key write accepted by one node never reached the other (replicas disagree although every update was delivered)")
+  ELSE IF \E n \in DOMAIN ev.views : ev.views[n].mget # want THEN "MGET on a node differs from the GETs of its keys"
+  ELSE IF \E n \in DOMAIN ev.views : ev.views[n].exists # cnt THEN "EXISTS with several keys on a node differs from the keys that exist"
+  ELSE IF \E n \in DOMAIN ev.views : ev.views[n].dbsize # cnt THEN "DBSIZE on a node differs from the number of keys it serves"
+  ELSE "ok"
+
 TraceInit == Init /\ l = 1 /\ run = 0 /\ kinds = {}
 
 Skip == UNCHANGED <<vars, run, kinds>>
@@ -57,6 +83,9 @@ Step(ev) ==
      /\ Skip
      /\ (IF ev.a_get # ev.b_get \/ ev.a_hget # ev.b_hget \/ ev.deltas = 0
          THEN Verdict("two nodes serve different values for a key although its update was delivered") ELSE TRUE)
+  [] ev.a = "multikey" ->      \* node level: commands naming several keys mean the per-key commands, on every node
+     /\ Skip
+     /\ LET v == MultiKeyVerdict(ev) IN IF v # "ok" THEN Verdict(v) ELSE TRUE
   [] ev.a = "ae" ->
      IF "skipped" \in DOMAIN ev THEN Skip
      ELSE IF IsNone(rs[ev.from]) THEN Skip /\ Verdict("anti-entropy from a node the specification holds empty")
